@@ -40,11 +40,12 @@ pub static SPEC: Spec = Spec {
         "cleared_block_requested",
         "sessions_completed",
         "big_log_session",
+        "block+seek_elsewhere_in_proven_subtree",
         "second_hop_sessions",
         "second_hop_upgrade_served:live",
         "second_hop_upgrade_served:reopened",
     ],
-    rule: "a case = one replication session: writer history (appends, batches, clears) in 1-4 growth rounds interleaved with well-formed replica requests (W1-W5 of DESIGN.md 2.4: upgrade iff behind, block/hash index inside the target, node counts from the replica's own missing_nodes, optional in-range seek) and replica reopens; oracle after EVERY round: create_proof = Ok(Some) (Ok(None) iff the block is cleared on the writer), verify_and_apply_proof = Ok(true), replica observation (info, has, get of every index) equals the replica model (holds exactly the received blocks, byte-identical to the writer's; length/byte length = writer's at last upgrade); at the end 'fetch everything missing' must converge and survive a reopen, and - when the replica then holds the whole log - a fresh second replica must be able to replicate from the first one alone under the same oracle (second hop; served by the live instance or after a reopen); bounded-exhaustive: all request sequences of length 3 (quick) / 4 (thorough) over {block i, nameable node j, seek 0/mid/end} for logs of 1..5 blocks x every first-upgrade length; random sessions up to 300 blocks and one 70000-block log; distinct = session script hash; non-trivial = at least one accepted proof",
+    rule: "a case = one replication session: writer history (appends, batches, clears) in 1-4 growth rounds interleaved with well-formed replica requests (W1-W5 of DESIGN.md 2.4: upgrade iff behind, block/hash index inside the target, node counts from the replica's own missing_nodes, optional in-range seek - alone anywhere in the log, together with a block anywhere inside the sub-tree the proof spans) and replica reopens; oracle after EVERY round: create_proof = Ok(Some) (Ok(None) iff the block is cleared on the writer), verify_and_apply_proof = Ok(true), replica observation (info, has, get of every index) equals the replica model (holds exactly the received blocks, byte-identical to the writer's; length/byte length = writer's at last upgrade); at the end 'fetch everything missing' must converge and survive a reopen, and - when the replica then holds the whole log - a fresh second replica must be able to replicate from the first one alone under the same oracle (second hop; served by the live instance or after a reopen); bounded-exhaustive: all request sequences of length 3 (quick) / 4 (thorough) over {block i, nameable node j, seek 0/mid/end} for logs of 1..5 blocks x every first-upgrade length; random sessions up to 300 blocks and one 70000-block log; distinct = session script hash; non-trivial = at least one accepted proof",
     assumptions: &[
         "well-formed request = W1-W5 (hash nodes straddling the replica length and seek+block inside the upgraded range are excluded: the scheme has no defined answer; C09 sends them)",
     ],
@@ -463,6 +464,11 @@ pub fn random_session(ctx: &mut Ctx, r: &mut Rng, cache: CacheMode) -> (Session,
 }
 
 fn run_case(ctx: &mut Ctx, id: u64) {
+    run_case_inner(ctx, id);
+    ctx.add("block+seek_elsewhere_in_proven_subtree", repl::SEEKS_ELSEWHERE_IN_SUBTREE.swap(0, std::sync::atomic::Ordering::Relaxed));
+}
+
+fn run_case_inner(ctx: &mut Ctx, id: u64) {
     let t = ctx.tier;
     let mut r = ctx.case_rng(id);
     let ne = exh_cases(t);
